@@ -208,6 +208,12 @@ def splitLines (s : Str) : List Str :=
 def indentRegexp (cfg : Config) (s : Str) : Str :=
   joinWith [10] (indentLines cfg (splitLines s) 0 0)
 
+/-- the expression inside the anchors: a top-level alternation gets a group -/
+def bodyText (cfg : Config) (ast : Expr) : Str :=
+  match ast with
+  | .alt _ => Comp.paren cfg.cap cfg.color cfg.verb false (fmtExpr cfg ast)
+  | _ => fmtExpr cfg ast
+
 /-- `Display for RegExp` -/
 def fmtRegExp (cfg : Config) (ast : Expr) : Str :=
   let flag :=
@@ -217,9 +223,7 @@ def fmtRegExp (cfg : Config) (ast : Expr) : Str :=
     else []
   let caret := if cfg.noStart then [] else Comp.caret cfg.color cfg.verb
   let dollar := if cfg.noEnd then [] else Comp.dollar cfg.color cfg.verb
-  let body := match ast with
-    | .alt _ => Comp.paren cfg.cap cfg.color cfg.verb false (fmtExpr cfg ast)
-    | _ => fmtExpr cfg ast
+  let body := bodyText cfg ast
   let r0 := flag ++ caret ++ body ++ dollar
   let r1 := replaceChar 12 Gen.strFormFeed (replaceChar 11 Gen.strVerticalTab r0)
   if cfg.verb then
